@@ -252,6 +252,19 @@ func c20DirectRun(c c20DCase, v c20Variants) (impl string, line string) {
 			backend.BackendUnsupported{}.SelectObjectContent(context.Background(), in)(bufio.NewWriter(io.Discard))
 			return "nopanic"
 		})
+	case "signedread":
+		// args: variant (signed | signed-trailer), stream (hex). No model question: Props.C12.signed_never_panics
+		// (re-exported as Props.C20.no_panic_signedChunkReader) says the reader never panics on any bytes;
+		// here: it must not panic and must come to an end
+		line = "robust chunksizeof -"
+		impl = c20ReadSigned(a[0], []byte(unhex(a[1])))
+	case "globmatch":
+		// args: pattern, subject (hex): auth.Resources.Match must answer within 1 s and agree with Model.Glob
+		line = "robust chunksizeof -" // long subjects: only the time is judged (the list-indexed Lean model is slow on them)
+		if len(a[1]) <= 2*260 {
+			line = "robust globmatch " + a[0] + " " + a[1]
+		}
+		impl = c20GlobMatch(unhex(a[0]), unhex(a[1]))
 	case "unsignedread":
 		// the whole reader on a finite stream: it must come to an end (value or error) — a reader that
 		// neither returns nor consumes is the wedge of the request; the first size line is compared
@@ -270,6 +283,77 @@ func c20DirectRun(c c20DCase, v c20Variants) (impl string, line string) {
 		line = "robust bigdata " + hexArg(seen)
 	}
 	return
+}
+
+const (
+	c20SigSecret = "c20-secret-key"
+	c20SigSeed   = "4f232c4386841ef735655705268965c44a0e4690baa4adea153f7db9fa80a0a9"
+)
+
+var c20SigDate = time.Date(2024, 1, 2, 3, 4, 5, 0, time.UTC)
+
+// c20SignedStream: a correctly signed aws-chunked body (so that every header up to the mutated one verifies)
+func c20SignedStream(body []byte, sizes []int, trailer bool) []byte {
+	key := gw.SigningKey(c20SigSecret, "20240102", "us-east-1", "s3", "aws4_request")
+	return gw.EncodeSignedChunks(body, sizes, c20SigSeed, key, "20240102T030405Z", "20240102/us-east-1/s3/aws4_request", "crc32", trailer)
+}
+
+func c20ReadSigned(variant string, stream []byte) string {
+	if c20ReaderSpun {
+		return "skipped"
+	}
+	done := make(chan string, 1)
+	go func() {
+		done <- c20Recover(func() string {
+			var rd io.Reader
+			var err error
+			ad := utils.AuthData{Signature: c20SigSeed}
+			if variant == "signed-trailer" {
+				rd, err = utils.NewSignedChunkReader(bytes.NewReader(stream), ad, "us-east-1", c20SigSecret, c20SigDate, "x-amz-checksum-crc32", false)
+			} else {
+				rd, err = utils.NewSignedChunkReader(bytes.NewReader(stream), ad, "us-east-1", c20SigSecret, c20SigDate, "", false)
+			}
+			if err != nil {
+				return "err-new"
+			}
+			data, err := io.ReadAll(rd)
+			if err != nil {
+				return fmt.Sprintf("err %d", len(data))
+			}
+			return fmt.Sprintf("ok %d", len(data))
+		})
+	}()
+	select {
+	case r := <-done:
+		return r
+	case <-time.After(3 * time.Second):
+		c20ReaderSpun = true
+		return "spin"
+	}
+}
+
+var c20GlobSpun bool
+
+func c20GlobMatch(pattern, subject string) string {
+	if c20GlobSpun {
+		return "skipped"
+	}
+	done := make(chan string, 1)
+	go func() {
+		done <- c20Recover(func() string {
+			if (auth.Resources{}).Match(pattern, subject) {
+				return "t"
+			}
+			return "f"
+		})
+	}()
+	select {
+	case r := <-done:
+		return r
+	case <-time.After(time.Second):
+		c20GlobSpun = true
+		return "spin"
+	}
 }
 
 var c20ReaderSpun bool // a reader goroutine that spins cannot be stopped: no further reader cases after the first
@@ -462,6 +546,27 @@ func c20GenGrants(r *lib.Rand) string {
 	return strings.Join(g, ",")
 }
 
+// c20GenSignedRead: a correctly signed stream with one chunk-size token replaced by a boundary value
+// (first or later chunk), cut, or mutated
+func c20GenSignedRead(r *lib.Rand) c20DCase {
+	variant := r.Pick([]string{"signed", "signed-trailer"})
+	body := c20Data(1 + r.Intn(12))
+	var sizes []int
+	for i := r.Intn(3); i > 0; i-- {
+		sizes = append(sizes, 1+r.Intn(6))
+	}
+	w := c20SignedStream(body, sizes, variant == "signed-trailer")
+	switch r.Intn(6) {
+	case 0, 1, 2:
+		w = c20ApplyWireMut(fmt.Sprintf("size@%d:%s", r.Intn(3), r.Pick(c20BoundarySizes)), w)
+	case 3:
+		w = c20Cut(w, fmt.Sprintf("%s:%d", r.Pick([]string{"crlf", "mid", "lf"}), r.Intn(8)))
+	case 4:
+		w = []byte(c20Mutated(r, string(w), "0123456789abcdef\r\n ;=-+x"))
+	}
+	return c20DCase{"signedread", []string{variant, hexArg(string(w))}, "signedread"}
+}
+
 // c20GenUnsignedStream: a valid STREAMING-UNSIGNED-PAYLOAD-TRAILER body, cut at a framing boundary or
 // with a mutated line
 func c20GenUnsignedStream(r *lib.Rand) string {
@@ -483,7 +588,7 @@ func c20GenUnsignedStream(r *lib.Rand) string {
 }
 
 func c20DirectGen(r *lib.Rand) c20DCase {
-	switch k := r.Intn(26); {
+	switch k := r.Intn(28); {
 	case k < 3:
 		s := c20Plain(r.Pick(c20Pools["copysrc"]))
 		cl := "copysource:pool"
@@ -552,6 +657,20 @@ func c20DirectGen(r *lib.Rand) c20DCase {
 		}
 		return c20DCase{"queryunescape", []string{hexArg(b.String())}, "queryunescape"}
 	case k < 24:
+		return c20GenSignedRead(r)
+	case k < 25:
+		stars, n := 1+r.Intn(20), c20PickInt(r, []int{0, 1, 7, 64, 200, 1024})
+		sep := r.Pick([]string{"a", "a", "ab", "?"})
+		pat := "fzp/" + strings.Repeat("*"+sep, stars) + r.Pick([]string{"*b", "b", "*", ""})
+		sub := "fzp/" + strings.Repeat(r.Pick([]string{"a", "a", "ab"}), n)
+		if len(sub) > 1030 {
+			sub = sub[:1030]
+		}
+		if r.Chance(20) {
+			sub += "b"
+		}
+		return c20DCase{"globmatch", []string{hexArg(pat), hexArg(sub)}, "globmatch"}
+	case k < 26:
 		return c20DCase{"unsignedread", []string{hexArg(c20GenUnsignedStream(r))}, "unsignedread"}
 	default:
 		p := r.Pick(c20PathPool)
@@ -634,6 +753,18 @@ func c20Direct(a lib.Args, res *lib.Result) error {
 		for _, s := range []string{"nil", "noenabled", "true", "false"} {
 			cases = append(cases, c20DCase{"select", []string{s}, "corpus"})
 		}
+		for _, variant := range []string{"signed", "signed-trailer"} {
+			for k := 0; k < 2; k++ {
+				for _, v := range c20BoundarySizes {
+					w := c20ApplyWireMut(fmt.Sprintf("size@%d:%s", k, v), c20SignedStream(c20Data(10), []int{5}, variant == "signed-trailer"))
+					cases = append(cases, c20DCase{"signedread", []string{variant, hexArg(string(w))}, "corpus"})
+				}
+			}
+		}
+		for _, k := range []int{8, 12, 15, 20} {
+			cases = append(cases, c20DCase{"globmatch", []string{hexArg("fzp/" + strings.Repeat("*a", k) + "*b"), hexArg("fzp/" + strings.Repeat("a", 200))}, "corpus"},
+				c20DCase{"globmatch", []string{hexArg("fzp/" + strings.Repeat("*a", k) + "*b"), hexArg("fzp/" + strings.Repeat("a", 1024))}, "corpus"})
+		}
 		for _, s := range []string{"", "5\r\nhello\r\n", "5\r\nhello\r\n\r\n\r\n", "\r\n", "5\r\nhello"} {
 			cases = append(cases, c20DCase{"unsignedread", []string{hexArg(s)}, "corpus"})
 		}
@@ -654,6 +785,39 @@ func c20Direct(a lib.Args, res *lib.Result) error {
 	}
 	for i, c := range cases {
 		model := c20CanonModel(c.Site, out[i])
+		if c.Site == "signedread" {
+			if impls[i] == "panic" || impls[i] == "spin" {
+				kind, sig, what := "property", "crash:direct:signedread", "the signed chunk reader panics on this stream (Props.C12.signed_never_panics: the model never does)"
+				if impls[i] == "spin" {
+					sig, what = "wedge:direct:ChunkReader.Read", "the signed chunk reader does not come to an end on this finite stream (3 s)"
+				}
+				res.Fail(lib.Failure{Kind: kind, Signature: sig, What: what, Input: map[string]interface{}{"site": c.Site, "args": c.Args, "class": c.Class}, Impl: impls[i], Model: "never panics (Props.C12.signed_never_panics)"})
+			}
+			continue
+		}
+		if c.Site == "globmatch" {
+			// the driver answers two letters: Model.Glob.match, Spec.Glob.G
+			want := out[i]
+			if want != "t" && want != "f" {
+				want = impls[i] // not compared
+				if impls[i] == "spin" {
+					want = "?"
+				}
+			}
+			switch {
+			case impls[i] == "skipped":
+			case impls[i] == "spin":
+				res.Fail(lib.Failure{Kind: "property", Signature: "wedge:direct:Resources.Match", What: "auth.Resources.Match does not answer within 1 s on a pattern of ≤ 20 stars and a subject of ≤ 1024 bytes: every access check of a non-admin request against such a policy resource pins a CPU (Props.C20.glob_steps_bounded: the modelled two-pointer matcher needs at most (|s|+1)·(|s|+|p|+1)+… steps)",
+					Input: map[string]interface{}{"site": c.Site, "args": c.Args, "class": c.Class}, Impl: impls[i], Model: want})
+			case impls[i] != want:
+				kind := "correspondence"
+				if impls[i] == "panic" {
+					kind = "property"
+				}
+				res.Fail(lib.Failure{Kind: kind, Signature: "direct:globmatch", What: "auth.Resources.Match differs from Model.Glob.match", Input: map[string]interface{}{"site": c.Site, "args": c.Args, "class": c.Class}, Impl: impls[i], Model: want})
+			}
+			continue
+		}
 		if c.Site == "unsignedread" {
 			if !c20ReaderAgrees(model, impls[i]) {
 				kind, sig, what := "correspondence", "direct:unsignedread", "the unsigned chunk reader does not refuse a stream whose first size line the model refuses"
